@@ -97,6 +97,8 @@ func main() {
 		os.Exit(cmdWorker(os.Args[2:]))
 	case "extract":
 		os.Exit(cmdExtract(os.Args[2:]))
+	case "raceprobe":
+		os.Exit(cmdRaceProbe(os.Args[2:]))
 	default:
 		fmt.Fprintln(os.Stderr, "unknown subcommand")
 		os.Exit(2)
